@@ -122,6 +122,7 @@ func runC06(c *Ctx) {
 	r.Rule("C06.5", "version-table: validSpecVersions contains every released version of SPEC.md", 1)
 
 	c06LoopVars(c)
+	c.documentUntouched("C06.4")
 
 	// ---- the version map
 	g := c.globalVar("specs", "validSpecVersions")
